@@ -371,7 +371,9 @@ def build_trace(env: Env, rows: list[dict[str, Any]], closed: bool, aborted: boo
         exch.append({"req": list(bytes.fromhex(reqhex)), "nw": len(ws),
                      "replies": [list(bytes.fromhex(r)) for r in c["replies"]],
                      "out": c["out"], "st": c["st"] if c["st"] is not None else c["st0"],
-                     "impl": impl, "ana": c["ana"]})
+                     "impl": impl, "ana": c["ana"],
+                     # the call ended with the client's "illegal response" errors: a reply WAS received and refused
+                     "illegal": c["out"] == "exc" and str(c["exc"]).startswith(("RequestResponseMismatch", "MalformedResponse"))})
         meta.append({"i": i, "cls": c["cls"], "exc": c["exc"], "warn": c["warn"]})
     trows = [{k: r[k] for k in ("okDecode", "req", "hasResp", "resp", "hasExc", "st", "mode", "send", "hasRecv",
                                 "recv")} for r in rows]
